@@ -7,6 +7,7 @@ From RV Require Import Lang.StmtSimple.
 From RV Require Import Proofs.SkeletonP Proofs.SimTopP Proofs.SimDemoP Proofs.TranslAcceptP Proofs.SimAcceptP.
 From RV Require Import Lang.FnRet Proofs.FnRetP Lang.TupleOrder Proofs.TupleOrderP.
 From RV Require Import Lang.NoReinit Proofs.NoReinitP.
+From RV Require Import Lang.StmtDemoBound Proofs.SimDemoBoundP.
 Import ListNotations.
 Open Scope Z_scope.
 
@@ -154,6 +155,31 @@ Example C01_stmt_preserve_nonvacuous_tuple :
             cprog_exec demo_tuple_sem demo_aug (info_of demo_tuple) 30 0 false c = Some demo_tuple_trace.
 Proof. exact demo_tuple_ok. Qed.
 Print Assumptions C01_stmt_preserve_nonvacuous_tuple.
+
+(* A for-range loop whose bound is a BARE VARIABLE follows the variable.  `n = <literal v0>` above the main loop (a value
+   known when the for line is parsed), `while True: for i in range(n): mon.write(i) / mon.write(n) / n = n + 1`: for EVERY
+   initial value v0, every number of passes and every Python run, the translated program - whose loop() provably starts
+   with the for node over expression 2, the bare name n, not over a number - produces the same trace: the C loop runs
+   CPython's number of iterations on every pass, whatever was known about n at parse time.  (Instance of
+   C01_stmt_preserve_partial; the class the seeded change C01-r1 breaks - there the IR has an int in place of expression 2.) *)
+Theorem C01_for_variable_bound_follows_the_variable :
+  forall v0 fuel n tr,
+    pprog_exec (demo_bound_sem v0) demo_aug fuel n demo_bound = Some tr ->
+    exists c, transl demo_bound = Some c /\
+      (exists r, c_loop c = NFor ni 2 [NWrite 3] :: r) /\
+      exists F, forall F', (F <= F')%nat ->
+        cprog_exec (demo_bound_sem v0) demo_aug (info_of demo_bound) F' n true c = Some tr.
+Proof. exact demo_bound_follows. Qed.
+Print Assumptions C01_for_variable_bound_follows_the_variable.
+
+(* its hypothesis is satisfiable: v0 = 1, three passes, 1 + 2 + 3 iterations (9 events) on both sides *)
+Example C01_for_variable_bound_nonvacuous :
+  guard_ok demo_bound = true /\ breaks_ok demo_bound = true /\
+  pprog_exec (demo_bound_sem 1) demo_aug 30 3 demo_bound = Some demo_bound_trace /\
+  exists c, transl demo_bound = Some c /\
+            cprog_exec (demo_bound_sem 1) demo_aug (info_of demo_bound) 30 3 true c = Some demo_bound_trace.
+Proof. exact demo_bound_ok. Qed.
+Print Assumptions C01_for_variable_bound_nonvacuous.
 
 (* The guard clause on range() bounds is necessary: `n = 3; for i in range(n): n = n - 1;
    mon.write(i)` is accepted, Python writes 0 1 2, the C for-loop (bound re-evaluated before
